@@ -12,7 +12,7 @@ Two layers.
     consistent then so are those of every expression, == is an equivalence relation, and the operand
     sharing `expr_equals` performs after a successful comparison changes no observer.
 -/
-import UflVerif.Model.Syntax
+import UflVerif.Model.ExprEq
 import UflVerif.Gen.EqFields
 
 namespace UflVerif.C13
@@ -39,47 +39,9 @@ theorem C13_fields_copies : ∀ k ∈ kinds,
 open Gen.EqFields in
 example : rows.length ≥ 40 ∧ kinds.length ≥ 15 := by decide +kernel
 
-/-! ## (2) lifting to expressions -/
-
-/-- observers of terminals (any class): equality, hash, repr -/
-structure TermObs where
-  teq : Expr → Expr → Bool
-  thash : Expr → Nat
-  trepr : Expr → String
-  /-- how an operator node mixes its type and its operands' hashes -/
-  mix : String → List Nat → Nat
+/-! ## (2) lifting to expressions (`TermObs`, `eqE`, `hashE`, `reprE`, `share` live in Model/ExprEq.lean) -/
 
 variable (T : TermObs)
-
-mutual
-def eqE : Expr → Expr → Bool
-  | .op k _ as, .op k' _ bs => k == k' && eqL as bs
-  | .op .., _ => false
-  | _, .op .. => false
-  | a, b => T.teq a b
-def eqL : List Expr → List Expr → Bool
-  | [], [] => true
-  | a :: as, b :: bs => eqE a b && eqL as bs
-  | _, _ => false
-end
-
-mutual
-def hashE : Expr → Nat
-  | .op k _ as => T.mix k.name (hashL as)
-  | a => T.thash a
-def hashL : List Expr → List Nat
-  | [] => []
-  | a :: as => hashE a :: hashL as
-end
-
-mutual
-def reprE : Expr → String
-  | .op k _ as => k.name ++ "(" ++ reprL as ++ ")"
-  | a => T.trepr a
-def reprL : List Expr → String
-  | [] => ""
-  | a :: as => reprE a ++ ", " ++ reprL as
-end
 
 /-- the terminals' observers are consistent -/
 def TermsOK : Prop :=
@@ -199,11 +161,6 @@ theorem C13_equivalence (h : TermEquiv T) :
     (∀ a, eqE T a a = true) ∧ (∀ a b, eqE T a b = true → eqE T b a = true) ∧
     (∀ a b c, eqE T a b = true → eqE T b c = true → eqE T a c = true) :=
   ⟨refl_E T h, symm_E T h, trans_E T h⟩
-
-/-- what `expr_equals` does to its left argument after a successful comparison: adopt the operand tuple of the right one -/
-def share : Expr → Expr → Expr
-  | .op k x _, .op _ _ bs => .op k x bs
-  | a, _ => a
 
 /-- **comparing never changes repr, hash (or anything == respects)**: the node with the adopted operands is
     == to the original, hence has the same hash and repr -/
